@@ -311,6 +311,16 @@ func (v *UnixVolume) WriteBlock(ctx context.Context, loc string, rdr io.Reader) 
 		v.os.Remove(tmpfile.Name())
 		return err
 	}
+	// Take the same flock as Touch and Trash on the file that is about
+	// to be replaced (if there is one). Otherwise a concurrent Trash
+	// that has already checked the old file's timestamp could move
+	// the new, just-written file to the trash.
+	if old, oerr := v.os.OpenFile(bpath, os.O_RDWR|os.O_APPEND, 0644); oerr == nil {
+		defer old.Close()
+		if v.lockfile(old) == nil {
+			defer v.unlockfile(old)
+		}
+	}
 	if err := v.os.Rename(tmpfile.Name(), bpath); err != nil {
 		err = fmt.Errorf("error renaming %s to %s: %s", tmpfile.Name(), bpath, err)
 		v.os.Remove(tmpfile.Name())
